@@ -60,6 +60,19 @@ Parse(s, t) ==
                   recycled |-> (buf[b].owner = 0 /\ buf[b].tier = t), dirt |-> buf[b].tok]
   /\ tokc' = tokc + 1 /\ nops' = nops + 1
 
+(* Read: the LINK READER gives birth to a frame - it takes a pooled buffer by  *)
+(* the length announced on the wire, reads the bytes into it, lets the builder *)
+(* parse them in place and stamps the frame with the link it arrived on (k).   *)
+(* Such a frame is what a router's handlers clone, grow, answer and release.   *)
+Read(s, t, k) ==
+  /\ Bound /\ Free(s)
+  /\ \E b \in Gettable(t) :
+       /\ buf' = [buf EXCEPT ![b] = [owner |-> s, tier |-> t, tok |-> tokc + 1, apx |-> 0]]
+       /\ st' = [st EXCEPT ![s] = [used |-> TRUE, buf |-> b, link |-> k]]
+       /\ act' = [name |-> "read", s |-> s, t |-> t, k |-> k, before |-> Snapshot, panic |-> FALSE,
+                  recycled |-> (buf[b].owner = 0 /\ buf[b].tier = t), dirt |-> buf[b].tok]
+  /\ tokc' = tokc + 1 /\ nops' = nops + 1
+
 SetLink(s, k) ==
   /\ Bound /\ st[s].used /\ st[s].link # k
   /\ st' = [st EXCEPT ![s].link = k]
@@ -131,6 +144,17 @@ Next == \/ \E s \in Structs, t \in Tiers : New(s, t) \/ Parse(s, t) \/ Reply(s, 
         \/ \E s \in Structs, md \in {"fits", "grow", "toobig"} : SetAppendix(s, md)
         \/ \E s \in Structs : Mutate(s) \/ Release(s)
 
+(* A router's frames: every frame is born in the link reader (Read), the rest   *)
+(* is what handlers do with it.  Kept apart from Next so that the bounded model  *)
+(* of the builder alone stays as small as it was (a Read is a Parse that also    *)
+(* sets the link: with it in Next the 4-operation model is ten times larger).    *)
+(* FramePool_DumpR checks this relation exhaustively and prints its edges.       *)
+NextR == \/ \E s \in Structs, t \in Tiers : Read(s, t, 1) \/ Reply(s, t)
+         \/ \E s \in Structs, k \in {1, 2} : SetLink(s, k)
+         \/ \E s \in Structs, c \in Structs : Clone(s, c)
+         \/ \E s \in Structs, md \in {"fits", "grow", "toobig"} : SetAppendix(s, md)
+         \/ \E s \in Structs : Mutate(s) \/ Release(s)
+
 (* (The leading conjunct keeps TLC from splitting the action on the          *)
 (* quantifier at start-up, which would evaluate RandomElement only once.)    *)
 NextSim ==
@@ -143,6 +167,22 @@ NextSim ==
                         THEN Clone(s, CHOOSE c \in Structs : Free(c)) ELSE Mutate(s))
     ELSE IF k <= 8 THEN \E md \in {RandomElement({"fits", "grow", "toobig"})} : SetAppendix(s, md)
     ELSE IF k = 9 THEN Mutate(s)
+    ELSE Release(s)
+
+(* Walks of a router's life: most frames are born in the link reader (of one    *)
+(* of two links), are cloned, have their appendix replaced (in place, across a  *)
+(* tier, beyond the limit), are answered, changed and released.                 *)
+NextSimR ==
+  /\ nops >= 0
+  /\ \E s \in {RandomElement(Structs)} : \E t \in {RandomElement(Tiers)} : \E k \in {RandomElement(1..14)} :
+    IF Free(s) THEN (IF k <= 10 THEN Read(s, t, 1 + (k % 2)) ELSE IF k <= 12 THEN New(s, t) ELSE Parse(s, t))
+    ELSE IF k <= 1 THEN Reply(s, t)
+    ELSE IF k = 2 THEN SetLink(s, IF st[s].link = 1 THEN 2 ELSE 1)
+    ELSE IF k <= 6 THEN (IF \E c \in Structs : Free(c)
+                        THEN Clone(s, CHOOSE c \in Structs : Free(c)) ELSE Mutate(s))
+    ELSE IF k <= 10 THEN \E j \in {RandomElement(1..5)} :
+                           SetAppendix(s, IF j <= 2 THEN "fits" ELSE IF j <= 4 THEN "grow" ELSE "toobig")
+    ELSE IF k = 11 THEN Mutate(s)
     ELSE Release(s)
 
 Spec == Init /\ [][Next]_vars
@@ -164,11 +204,12 @@ Isolation == \A s \in Structs \ Targets :
                   /\ Content(s).tok = act.before[s].tok /\ Content(s).apx = act.before[s].apx
                   /\ st[s].link = act.before[s].link
 (* New / parsed / reply frames show only their own content and no link.     *)
-NoRemnant == act.name \in {"new", "parse", "reply"} =>
-               /\ st[act.s].link = 0
+(* A frame the link reader made shows only what was read and the link it came on. *)
+NoRemnant == act.name \in {"new", "parse", "reply", "read"} =>
+               /\ st[act.s].link = (IF act.name = "read" THEN act.k ELSE 0)
                /\ Content(act.s).apx = 0
                /\ Content(act.s).tok = tokc
-NoDirt == act.name \in {"new", "parse"} => act.dirt = 0
+NoDirt == act.name \in {"new", "parse", "read"} => act.dirt = 0
 OwnerOK == \A b \in Bufs : buf[b].owner > 0 => st[buf[b].owner].used /\ st[buf[b].owner].buf = b
 
 DumpEdge == PrintT("EDGE " \o ToJson(View) \o "\t" \o ToJson([act' EXCEPT !.before = 0]) \o "\t" \o ToJson(View'))
